@@ -118,6 +118,9 @@ def make_grid(style: str, nt: int, tend: float, rng) -> np.ndarray:
         return np.concatenate([[0], np.cumsum(steps)]).astype(np.int16)
     if style == "f32":
         return (np.linspace(0, math.sqrt(tend), nt) ** 2).astype(np.float32)
+    if style == "epoch":  # a time axis counted from a distant origin (serial day numbers) with sub-day steps: t / dt of 1e6 and more
+        d = rng.uniform(0.2, 1.0, nt - 1) * (tend / nt) * 1e-2
+        return 45000.0 + np.concatenate([[0.0], np.cumsum(d)])
     if style == "huge":  # very large steps
         d = 10.0 ** rng.uniform(0, 8, nt - 1)
         return np.concatenate([[0.0], np.cumsum(d)])
